@@ -506,6 +506,7 @@ VSeekSnap(S, e, S2) ==
   IF e.code # "OK"
   THEN VErr(S, e, S2) \cup Chk("C12:seek-snap-code", (X = {} \/ ~ex) /\ e.code = "NotFound")
   ELSE IF X = {} \/ ~ex THEN {"C12:seek-snap-missing-ok"}
+  ELSE IF e.snap \notin DOMAIN S.gsnap THEN {}  \* created outside any observed CreateSnap (already reported there)
   ELSE
     LET s == CHOOSE x \in X : TRUE
         g == S.gsnap[e.snap]
@@ -643,6 +644,25 @@ VList(S, e, S2) ==
   \cup Chk("C12:list-duplicate", e.code = "OK" => Cardinality(got) = Len(e.names))
 
 (***************************************************************************)
+(* Storage failure / cancellation in the middle of an operation (C09).     *)
+(* e.of is the operation, e.k the index of the database interaction that   *)
+(* failed, e.dumpSame the byte-level comparison of all five tables made by *)
+(* the harness, e.woken the awaiters that fired.  A pull refreshes the     *)
+(* subscription's expiry in a first transaction of its own (by design, see *)
+(* C14), so that field alone may differ after a failed pull.               *)
+(***************************************************************************)
+NoExp(subs) == [s \in DOMAIN subs |-> [subs[s] EXCEPT !.exp = 0]]
+VFailed(S, e, S2) ==
+  Chk("C09:fault-not-reported", e.code # "OK")
+  \cup Chk("C09:failed-operation-changed-state",
+       /\ e.dumpSame
+       /\ IF e.of = "Pull"
+          THEN /\ RestSame(S, S2, {"topics", "msgs", "del", "snaps"})
+               /\ NoExp(S2.subs) = NoExp(S.subs)
+          ELSE Core(S2) = Core(S))
+  \cup Chk("C09:failed-operation-woke-waiter", Len(e.woken) = 0)
+
+(***************************************************************************)
 (* Dispatch                                                                *)
 (***************************************************************************)
 V(S, e, S2) ==
@@ -667,6 +687,7 @@ V(S, e, S2) ==
     [] e.op \in PruneJobs -> VPrune(S, e, S2)
     [] e.op = "Get" -> VGet(S, e, S2)
     [] e.op = "List" -> VList(S, e, S2)
+    [] e.op = "Failed" -> VFailed(S, e, S2)
     [] OTHER -> {"C00:unknown-op"}
 
 (***************************************************************************)
